@@ -98,6 +98,7 @@ func runDriver(c *vf.Check, dir string, bin string, env []string, jobs any, n in
 	res := make([]jobResult, n)
 	from := 0
 	restarts := 0
+	timeoutRounds := 0
 	for from < n {
 		cmd := exec.Command(bin, fmt.Sprint(from))
 		cmd.Dir = dir
@@ -144,6 +145,17 @@ func runDriver(c *vf.Check, dir string, bin string, env []string, jobs any, n in
 		}
 		if ee, ok := werr.(*exec.ExitError); ok && ee.ExitCode() == 7 {
 			from = last + 1
+			timeoutRounds++
+			if timeoutRounds >= 3 {
+				// ~100 jobs hang: every one of them is a reported violation already; the remaining jobs are not run
+				for i := from; i < n; i++ {
+					if res[i].Status == "" {
+						res[i] = jobResult{Status: "notrun"}
+					}
+				}
+				fmt.Printf("driver: %d rounds of hanging jobs; %d remaining jobs not run\n", timeoutRounds, n-from)
+				break
+			}
 			continue
 		}
 		tail := se.String()
